@@ -5,7 +5,7 @@ from aq import sym
 from aq.core import Property
 from aq.util import (calls_in, const_int, const_str, fp, has_call, ob, ok_paths, path_desc, paths,
                      unit_layout, unwrap_origin, writer_tokens)
-from aq.sym import show
+from aq.sym import show, strip_after
 
 PROP = Property(
     "C13", "proof",
@@ -489,3 +489,30 @@ def request_paths(fx):
     # 6. no indexing / unwrap panics besides the reviewed slice after Cursor::position (shared with C12)
     total = len(ps)
     yield ob("R-C13-4", "parse#path_count", total >= 16, b, None, "%d returning paths enumerated" % total, {"paths": total}, trivial=True)
+
+
+@PROP.rule("R-C13-5", floor=4, doc="address images: Ipv4AddrBytes / Ipv6AddrBytes are the network-order octets of the std address, both ways")
+def address_images(fx):
+    """The peer address inside an announce reply is an Ipv{4,6}AddrBytes; the trackers fill it with `ip.into()` and clients read it
+    back with `.into()`.  BEP 15 wants the address in network byte order = std's octets().  (An integer detour such as
+    u128::from(addr).to_ne_bytes() is symmetric, so every round-trip test still passes, but the wire bytes are reversed on a
+    little-endian host.)"""
+    for fam, n in (("4", 4), ("6", 16)):
+        std = "std::net::Ipv%sAddr" % fam
+        img = "aquatic_udp_protocol::common::Ipv%sAddrBytes" % fam
+        tb = [b for b in fx.bodies.values() if b.short == "<%s as std::convert::From>::from" % img and "From<%s>" % std in b.name]
+        okb = False
+        got = []
+        if len(tb) == 1:
+            got = [show(strip_after(p.ret)) for p in paths(fx, tb[0]) if p.end == "return"]
+            okb = got == ["Ipv%sAddrBytes::Ipv%sAddrBytes{0: Ipv%sAddr::octets(val)}" % (fam, fam, fam)]
+        yield ob("R-C13-5", "address#v%s#to_wire" % fam, okb, tb[0] if tb else None, None, "From<Ipv%sAddr> for Ipv%sAddrBytes = %s" % (fam, fam, got), {"ret": got})
+        fb = [b for b in fx.bodies.values() if b.short == "aquatic_udp_protocol::common::<impl std::convert::From for %s>::from" % std]
+        okf = False
+        got = []
+        if len(fb) == 1:
+            got = [show(strip_after(p.ret)) for p in paths(fx, fb[0]) if p.end == "return"]
+            res = [t["f"].get("res") for i, t in fb[0].calls(r"From.*::from$")]
+            okf = got == ["<Ipv%sAddr as From>::from(val.0)" % fam] and res == ["<%s as std::convert::From<[u8; %d]>>::from" % (std, n)]
+            got = got + res
+        yield ob("R-C13-5", "address#v%s#from_wire" % fam, okf, fb[0] if fb else None, None, "From<Ipv%sAddrBytes> for Ipv%sAddr = %s" % (fam, fam, got), {"ret": got})
